@@ -176,6 +176,46 @@ def run(ck, replay=None):
     darsia = import_darsia()
     rng = random.Random(ck.seed)
     quick = ck.tier == "quick"
+    # two corrections of one class with other parameters, made and applied to images of one shape along every interleaving of
+    # spec/TwoObjects.tla: each applies ITS parameters
+    from lib import twoobj
+    thists = twoobj.histories(ck)
+    tspecs = []
+    Ht, Wt = 6, 7
+    tin = np.random.RandomState(12).rand(Ht, Wt, 3)
+    zero_b = {"horizontal_bulge": 0.0, "horizontal_center_offset": 0, "vertical_bulge": 0.0, "vertical_center_offset": 0}
+
+    def mk_illum(o):
+        ic = darsia.IlluminationCorrection()
+        ic.colorspace = "rgb-scalar"
+        ic.local_scaling = [darsia.ScalarImage(np.full((Ht, Wt), 2.0 if o == "a" else 0.5), dimensions=[1.0, 1.0])]
+        return ic
+
+    def mk_translation(o):
+        pth = os.path.join(work0, f"tw_{o}.npy")
+        np.save(pth, np.array([[1, 0, 1 if o == "a" else -2], [0, 1, -1 if o == "a" else 1]], dtype=np.float32))
+        return darsia.TranslationCorrection(pth)
+
+    work0 = tempfile.mkdtemp(prefix="c10tw-", dir=ck.work)
+    makers = {"curvature": lambda o: darsia.CurvatureCorrection(config={"bulge": dict(zero_b, horizontal_bulge=1e-3 if o == "a" else 0.0, vertical_bulge=0.0 if o == "a" else 2e-3)}),
+              "rotation": lambda o: darsia.RotationCorrection(anchor=[0, 0], rotations=[np.pi / 2 if o == "a" else -np.pi / 2]),
+              "illumination": mk_illum, "translation": mk_translation,
+              "type": lambda o: darsia.TypeCorrection(np.float32 if o == "a" else np.float64)}
+    for kind, mk in makers.items():
+        def make(o, mk=mk):
+            with warnings.catch_warnings(), contextlib.redirect_stdout(io.StringIO()):
+                warnings.simplefilter("ignore")
+                return mk(o)
+
+        def use(o, corr):
+            with warnings.catch_warnings(), contextlib.redirect_stdout(io.StringIO()):
+                warnings.simplefilter("ignore")
+                r_ = np.asarray(corr.correct_array(tin.copy()))
+            return [np.asarray(r_, dtype=float), np.array([r_.dtype.itemsize], dtype=float)]
+
+        sel = thists if not quick else [h for h in thists if len(h) <= 4]
+        tspecs.append((sel, "correction-" + kind, make, use, lambda x, y: all(p_.shape == q_.shape and np.allclose(p_, q_, rtol=1e-6, atol=1e-7) for p_, q_ in zip(x, y)), "twin:" + kind))
+    ck.cov["twin_object_histories"] = twoobj.run(ck, "C10", tspecs)
     events = []
     work = tempfile.mkdtemp(prefix="c10-", dir=ck.work)
     for rep in range(1 if quick else 6):
